@@ -309,8 +309,12 @@ def colebrook_white(re, d, k, lambda_nikuradse, max_iter, lengths, tolerance=1e-
 
     # disp=False: a failed iteration is reported via the converged flag (and turned into a
     # PipeflowNotConverged by the caller) instead of a RuntimeError in the single-branch case
-    res = newton(colebrook_white_implicit, lambda_res[mask], maxiter=max_iter, args=(re[mask], k[mask], d[mask]),
-                 tol=tolerance, full_output=True, fprime=cw_derivative, disp=False)  # , fprime2=cw_derivative_2)
+    try:
+        res = newton(colebrook_white_implicit, lambda_res[mask], maxiter=max_iter, args=(re[mask], k[mask], d[mask]),
+                     tol=tolerance, full_output=True, fprime=cw_derivative, disp=False)  # , fprime2=cw_derivative_2)
+    except RuntimeError:
+        # scipy raises if the iteration failed for all branches, even with disp=False
+        return False, lambda_res
 
     if lambda_res[mask].size == 1:
         lambda_res[mask] = res[0]
